@@ -103,7 +103,7 @@ class Rec:
         u = self.uid()
         cls = m["ge"].POOL[tname]
         ev = cls(uid=u, **fields)
-        self.emits[u] = {"uid": u, "type": tname, "via": via, "by": by, "target": target, "t": VClock.t, "seg": self.segment}
+        self.emits[u] = {"uid": u, "type": tname, "via": via, "by": by, "target": target, "t": VClock.t, "seg": self.segment, "fields": dict(fields)}
         return ev
 
 
